@@ -235,4 +235,23 @@ theorem checkCow_model : ∀ (ops : List COp) (s : CState) (b : CBook) (obs : Li
         intro x
         rw [c6, List.mem_append, hcl]
 
+/-! ### publication in chunks (`loader.load` publishes what it has every 5 s, then the rest) -/
+
+theorem expectedAfter_append (m : List (Nat × Nat)) (b1 b2 : List (Nat × Option Nat)) :
+    expectedAfter m (b1 ++ b2) = expectedAfter (expectedAfter m b1) b2 := by
+  induction b1 generalizing m with
+  | nil => rfl
+  | cons kv rest ih =>
+    obtain ⟨k, v⟩ := kv
+    cases v <;> simp only [List.cons_append, expectedAfter] <;> exact ih _
+
+theorem assignIds_append (b1 b2 : List (Nat × Bool)) (n : Nat) :
+    assignIds (b1 ++ b2) n =
+      ((assignIds b1 n).1 ++ (assignIds b2 (assignIds b1 n).2).1, (assignIds b2 (assignIds b1 n).2).2) := by
+  induction b1 generalizing n with
+  | nil => simp [assignIds]
+  | cons a t ih =>
+    obtain ⟨k, b⟩ := a
+    cases b <;> simp only [List.cons_append, assignIds, ih] <;> rfl
+
 end ZoektModel.C19
